@@ -166,10 +166,16 @@ def check_encoders(out, facts, S):
                 continue
             if mode <= 2:
                 okm = len(outs) == 1
+                # the value written is (x << 2) | mode, however it is computed (shift, multiplication, named constants)
+                def _val(expr):
+                    try:
+                        return eval_expr(expr, leaf)
+                    except ArithPanic:
+                        return None
                 if okm and mode == 0:
-                    okm = outs[0][0] == 'byte' and _mode_value_ok(outs[0][1], 0, prim, i)
+                    okm = outs[0][0] == 'byte' and _val(outs[0][1]) == (x << 2)
                 elif okm:
-                    okm = outs[0][0] == 'enc' and outs[0][1] == {1: 'u16', 2: 'u32'}[mode] and _mode_value_ok(outs[0][2], mode, prim, i)
+                    okm = outs[0][0] == 'enc' and outs[0][1] == {1: 'u16', 2: 'u32'}[mode] and _val(outs[0][2]) == ((x << 2) | mode)
                 if not okm:
                     why.append('value %d (mode %d) is not written as ((x << 2) | %d) in %s: %s' % (x, mode, mode, {0: 'one byte', 1: 'a u16', 2: 'a u32'}[mode], ' · '.join(sym.tstr(e) for e in outs)[:120]))
             elif prim == 'u32':
